@@ -195,3 +195,91 @@ def bed_case(rng, fmt, single_by_id=False):
             calls.append(c)
     return {"kind": "bed12", "fmt": fmt, "transcripts": ts, "calls": calls,
             "shuffle_seed": rng.randrange(1 << 30) if rng.random() < 0.3 else None}
+
+
+# --- FASTA rewritten between calls; readers with non-default naming -------------------------------------------------
+def small_genome(rng, names, maxlen=400):
+    seqs = []
+    for name in names:
+        n = rng.choice([1, 2, 59, 60, 61, rng.randrange(3, 120), rng.randrange(50, maxlen), rng.randrange(50, maxlen)])
+        width = rng.choice(WIDTHS)
+        if width < 7 and n > 200:
+            width = 60
+        seqs.append([name, rng.choice(["", "", "some description", "len=%d" % n]), bases(rng, n), width])
+    return seqs
+
+
+def rewrite_case(rng):
+    """2-4 versions of one FASTA file (same record names; other bases, mostly other lengths and line widths), slices
+    inside each version; how the next version replaces the previous one and what happens to the index file."""
+    names = list(SEQ_NAMES)
+    rng.shuffle(names)
+    names = names[:rng.randrange(1, 4)]
+    rounds = []
+    prev = None
+    for r in range(rng.randrange(2, 5)):
+        g = small_genome(rng, names)
+        if prev is not None:
+            x = rng.random()
+            if x < 0.25:
+                # same lengths and layout, other bases: only the content tells the versions apart
+                g = [[p[0], p[1], bases(rng, len(p[2])), p[3]] for p in prev]
+            elif x < 0.35:
+                g = [list(p) for p in prev]  # unchanged file
+        rounds.append({"genome": g, "slices": slices(rng, g, rng.randrange(2, 7)), "fai": rng.choice(["remove", "keep"]),
+                       "write": rng.choice(["truncate", "truncate", "replace"])})
+        prev = g
+    return {"kind": "seqrw", "rounds": rounds, "origin": rng.choice(["line", "ctor"])}
+
+
+def named_case(rng):
+    """Records with headers gi|<n>|<name> [description], a naming mode of the reader, and slices addressed by the keys the
+    reader offers in that mode: [key, record index, start, end, strand]."""
+    names = list(SEQ_NAMES)
+    rng.shuffle(names)
+    names = names[:rng.randrange(2, 5)]
+    g = small_genome(rng, names, maxlen=600)
+    for i, rec in enumerate(g):
+        rec[0] = "gi|%d|%s" % (100 + 7 * i, rec[0])
+        if rng.random() < 0.7:
+            rec[1] = rng.choice(["some description", "len=%d" % len(rec[2]), "chr1 chr2L", "gi|100|chr1"])
+    mode = rng.choice(M.NAMING_MODES)
+    keys = M.naming_keys(mode, g)
+    klist = sorted(keys)
+    out = []
+    for sl in slices(rng, [[k, "", g[keys[k]][2], g[keys[k]][3]] for k in klist], rng.randrange(4, 12)):
+        out.append([sl[0], keys[sl[0]], sl[1], sl[2], sl[3]])
+    return {"kind": "seqobj", "genome": g, "mode": mode, "as_raw": rng.random() < 0.25, "slices": out,
+            "origin": rng.choice(["line", "ctor"])}
+
+
+def deep_case(rng):
+    """Single-isoform genes: gene > transcript > exon/CDS/UTR.  target 'gene': bed12 is asked for the gene, whose block and
+    thick features are its level-2 children.  target 'transcript' with 'via': the listed child types hang on an
+    intermediate feature below the transcript (transcript > protein > CDS), i.e. are level-2 children of the transcript."""
+    target = rng.choice(["gene", "gene", "transcript"])
+    fmt = "gtf" if (target == "gene" and rng.random() < 0.25) else "gff3"
+    ts = []
+    for i in range(rng.randrange(1, 4)):
+        t = transcript(rng, i, fmt)
+        t["seqid"] = t["seqid"] or rng.choice(["chr1", "chr2L", "ctg.7-b"])
+        gid = "gene%d" % i
+        t["attrs"] = [[k, ([gid] if k in ("Parent", "gene_id") else v)] for k, v in t["attrs"]]
+        ts.append(t)
+    via = []
+    if target == "transcript":
+        via = rng.choice([["CDS"], ["CDS"], ["CDS", "stop_codon"], ["exon", "noncoding_exon"], ["five_prime_UTR", "three_prime_UTR"],
+                          ["CDS", "exon", "noncoding_exon"]])
+    calls = []
+    for i, t in enumerate(ts):
+        for _ in range(rng.randrange(1, 4)):
+            c = call(rng, t, fmt)
+            c["t"] = i
+            c["to_bed12"] = False
+            if target == "gene":
+                c["name_field"] = rng.choice(["ID", "Name"] if fmt == "gff3" else ["gene_id", "transcript_id"])
+            if not M.select(t["children"], c["block"]):
+                c["as"] = "feature"
+            calls.append(c)
+    return {"kind": "bed12", "fmt": fmt, "transcripts": ts, "calls": calls, "deep": {"target": target, "via": via},
+            "shuffle_seed": rng.randrange(1 << 30) if rng.random() < 0.3 else None}
